@@ -559,6 +559,13 @@ class CallMixin:
                 raise PathEnd("raise", ("TypeError", f"len() of {v.path}"))
         if isinstance(v, Obj) and self.hobj(v).kind == "inst":
             raise PathEnd("raise", ("TypeError", f"len() of {self.hobj(v).path}"))
+        if isinstance(v, Obj) and self.hobj(v).kind == "set" and "__dedup__" in self.hobj(v).attrs:
+            # a set built from a sequence may be shorter than the sequence (duplicates collapse)
+            h = self.hobj(v)
+            full = self.parts_len(h.parts)
+            n = self.smt.int("len!dedup!" + h.path, nonneg=True)
+            self.assume(z3.And(n <= full, z3.Implies(full > 0, n > 0)))
+            return self.mk_int(n)
         return self.mk_int(self.parts_len(self.iter_parts(v, ordered=False)))
 
     def shape_len(self, s: S):
@@ -778,7 +785,16 @@ class CallMixin:
         return Tu(self.iter_parts(args[0]) if args else ())
 
     def bi_set(self, args, kwargs):
-        return self.new_list_parts(self.iter_parts(args[0], ordered=False) if args else (), kind="set")
+        o = self.new_list_parts(self.iter_parts(args[0], ordered=False) if args else (), kind="set")
+        if args:
+            src = args[0]
+            from_set = isinstance(src, Obj) and self.hobj(src).kind == "set"
+            parts = self.hobj(o).parts
+            symbolic = any(not isinstance(p, Elems) for p in parts) or sum(len(p.items) for p in parts
+                                                                            if isinstance(p, Elems)) > 1
+            if not from_set and symbolic:
+                self.hobj(o).attrs["__dedup__"] = K(True)     # duplicates of the source collapse
+        return o
 
     def bi_sorted(self, args, kwargs):
         parts = self.iter_parts(args[0], ordered=False)
